@@ -675,12 +675,14 @@ def extract():
                          ("managed_git_hooks_dir_for_repo", "repo_ai_dir")):
         if not re.fullmatch(base + r"\(repo\)\.join\([A-Z_]+\)", PT.squash(ix.body(ix.find(HH, helper)))):
             problems.append(f"{helper}: is no longer `{base}(repo).join(<constant>)`")
-    # review of the two sites of restore_rebase_hooks_for_repo = hooksDir: the directory is the one recorded by maybe_enable_rebase_hook_mask
-    # (managed_git_hooks_dir_for_repo) or that same function; ASSUMES rebase_hook_mask_state.json holds what git-ai wrote
+    # review of the two sites of restore_rebase_hooks_for_repo = hooksDir: since /repo b9ba3919 the directory is always
+    # managed_git_hooks_dir_for_repo(repo) (the directory recorded in rebase_hook_mask_state.json is ignored) and only names in
+    # MANAGED_GIT_HOOK_NAMES are joined to it — no assumption about the content of the state file is needed any more
     rb = PT.squash(ix.body(ix.find(HH, "restore_rebase_hooks_for_repo")))
-    if not ("let managed_hooks_dir = if !state.managed_hooks_path.trim().is_empty() { PathBuf::from(state.managed_hooks_path.trim()) } else { managed_git_hooks_dir_for_repo(repo) };" in rb
+    if not ("let managed_hooks_dir = managed_git_hooks_dir_for_repo(repo);" in rb and "state.managed_hooks_path" not in rb
+            and re.search(r"for hook_name in &state\.masked_hooks \{ if !MANAGED_GIT_HOOK_NAMES\.contains\(&hook_name\.as_str\(\)\) \{ continue; \}", rb)
             and "let hook_path = managed_hooks_dir.join(hook_name);" in rb and "let masked_path = rebase_masked_hook_path(&managed_hooks_dir, hook_name);" in rb):
-        problems.append("restore_rebase_hooks_for_repo: the restored paths are no longer <managed hooks dir>/<hook name>")
+        problems.append("restore_rebase_hooks_for_repo: the restored paths are no longer <managed hooks dir>/<managed hook name>")
     eb = PT.squash(ix.body(ix.find(HH, "maybe_enable_rebase_hook_mask")))
     if not ("let managed_hooks_dir = managed_git_hooks_dir_for_repo(repo);" in eb and "managed_hooks_path: managed_hooks_dir.to_string_lossy().to_string()," in eb):
         problems.append("maybe_enable_rebase_hook_mask: no longer records managed_git_hooks_dir_for_repo(repo) as managed_hooks_path")
